@@ -172,6 +172,11 @@ def generate_dense(rw, rn, tier):
     n = pos + rw.choice([0, 1, 100, 700])
     windows = [{"n": n, "nseed": rn.getrandbits(31), "frames": frames}]
     if rw.random() < 0.5:
+        # a quiet buffer first: the floor is learnt low, then the packed buffer
+        # offers no noise-only window at all
+        windows.insert(0, {"n": rw.choice([400, 1000, 2000]), "nseed": rn.getrandbits(31),
+                           "frames": place_frames(rw, rw.choice([0, 0, 1]), 2000, 400, gen_frame_hex, 0.0) if False else []})
+    if rw.random() < 0.5:
         windows.append({"n": rw.choice([2000, 4096]), "nseed": rn.getrandbits(31),
                         "frames": place_frames(rw, rw.choice([1, 2, 3]), 2000, rw.choice([0, 7, 400]), gen_frame_hex, 0.0)})
     noise = finish_noise(windows, shape, snr)
@@ -208,7 +213,21 @@ def generate(run_seed, tier):
     noise = finish_noise(windows, shape, snr)
     if decreasing:
         decreasing_levels(rn, windows, shape, noise)
-    return {"rig": NAME, "prop": PROP, "noise": noise, "windows": windows}
+    # channel fault: a fade blanks both chips of some bit periods of a DF17 frame
+    # (only in quiet runs, where the outcome is determined)
+    quiet = noise["shape"] == "zero" or max(w.get("pk", noise["peak"]) for w in windows) <= 0.15 * 0.3
+    if quiet and rw.random() < 0.5:
+        for w in windows:
+            for f in w["frames"]:
+                if R.hex_df(f["hex"]) == 17 and not f["flips"] and f["amp"] * (1 - f["ripple"]) >= 0.86 and rw.random() < 0.5:
+                    k0 = rw.choice([8, 20, 33, 52, 57, 80, 100, 108, 110])
+                    f["drop"] = [k0, rw.choice([1, 1, 2, 5])]
+                    if f["drop"][0] + f["drop"][1] > 112:
+                        f["drop"][1] = 112 - f["drop"][0]
+    # clock fault: the wall clock steps forward (or the process is descheduled)
+    # between two of the reader's clock reads
+    jumps = [[rw.randint(1, 12), rw.choice([300000, 2000000, 3600000000])] for _ in range(rw.choice([0, 0, 0, 1, 2]))]
+    return {"rig": NAME, "prop": PROP, "noise": noise, "windows": windows, "clock_jumps": jumps}
 
 
 # ---------------------------------------------------------------------------
@@ -234,6 +253,21 @@ def check_premise(sc):
             fs = rf.frame_samples(nb)
             if f["start"] < 0 or f["start"] + fs > w["n"]:
                 return False
+            if f.get("drop"):
+                # dropout fault only where its outcome is determined: DF17 (parity
+                # decides), noise well below the break threshold, and a fragment
+                # length that cannot be mistaken for a 56-bit frame
+                k0, r = f["drop"]
+                if R.hex_df(f["hex"]) != 17 or not (8 <= k0 <= 110) or 53 <= k0 <= 56 or r < 1 or k0 + r > 112:
+                    return False
+                # ... and a pulse amplitude above the preamble template's tolerance
+                # for a gap sample (0.8): the scan resumes inside the faded frame,
+                # and weaker data pulses are acceptable "gaps" to _check_preamble
+                nbf = len(f["hex"]) * 4
+                if float(rf.pulse_amps(f["amp"], f.get("ripple", 0), f.get("rseed", 0), 4 + nbf).min()) < 0.85:
+                    return False
+                if no["shape"] != "zero" and w.get("pk", no["peak"]) > 0.15 * 0.3:
+                    return False
             if wi == 0 and f["start"] < 400 and no.get("regime") != "dense":
                 return False
             if end_prev is not None and f["start"] - end_prev < MIN_GAP:
@@ -266,6 +300,10 @@ def execute(sc, keep_log=False):
         return {"violations": [], "stats": stats, "digest": "premise-false", "log": None, "evals": 0, "sim_us": 0}
     reader = rr.RtlReader()
     no = sc["noise"]
+    m["clock"].reads = 0
+    m["clock"].jumps = dict((int(a), int(b)) for a, b in sc.get("clock_jumps", []))
+    if m["clock"].jumps:
+        stats.c["fault.clock_jump_between_reads"] += len(m["clock"].jumps)
     evals = 0
     samples = 0
     for wi, w in enumerate(sc["windows"]):
@@ -287,10 +325,12 @@ def execute(sc, keep_log=False):
         for f in w["frames"]:
             hx = f["hex"]
             kind = "L17" if R.hex_df(hx) == 17 else ("L2x" if len(hx) == 28 else "S")
-            sig.append((kind, no["snr_db"], f["start"] & 1, int(f["amp"] * 4), bool(f["flips"])))
+            sig.append((kind, no["snr_db"], f["start"] & 1, int(f["amp"] * 4), bool(f["flips"]), bool(f.get("drop"))))
             stats.c["frames." + kind] += 1
             if f["flips"]:
                 stats.c["fault.corrupted_df17"] += 1
+            if f.get("drop"):
+                stats.c["fault.dropout_in_df17"] += 1
             if f["start"] & 1:
                 stats.c["probe.odd_start_offset"] += 1
             if f["amp"] < 0.4:
